@@ -130,6 +130,13 @@ pub fn cmd_abi(a: &[&str]) -> String {
             bytes.extend_from_slice(&[0u8; 56]);
             write_file(&path, &bytes);
         }
+        "badmagic2" => {
+            // the first word of the magic number is right, the second is not (another format version of the same family)
+            let mut bytes = header_bytes(72, 1, 2);
+            bytes[5] ^= 0x03;
+            bytes.extend_from_slice(&[0u8; 56]);
+            write_file(&path, &bytes);
+        }
         "short" => write_file(&path, &header_bytes(72, 1, 2)[..10]),
         "zerogen" => {
             let mut bytes = header_bytes(72, 1, 0);
@@ -241,6 +248,24 @@ pub fn cmd_abi2(a: &[&str]) -> String {
             let _ = crate::ffi::clockbound_now(ctx, res0.as_mut_ptr() as *mut crate::ffi::clockbound_now_result);
             clock_off();
         }
+        if mode == "unknownthensync" {
+            // both clients are first asked while the segment holds the daemon's placeholder (status Unknown, as_of 0, bound 0), then the
+            // daemon publishes a synchronised record with a bound of 1 s: the answer to the second call depends on that record only
+            use std::io::{Seek, SeekFrom, Write};
+            let mut f0 = std::fs::OpenOptions::new().write(true).open(&p2).expect("open for patch");
+            f0.seek(SeekFrom::Start(16)).unwrap();
+            f0.write_all(&record_bytes((0, 0), (1000, 0), 0, 1000, 0)).unwrap();
+            f0.seek(SeekFrom::Start(14)).unwrap();
+            f0.write_all(&4u16.to_ne_bytes()).unwrap();
+            drop(f0);
+            set_clock(real, mono);
+            let _ = rc.now();
+            clock_off();
+            set_clock(real, mono);
+            let mut res0: std::mem::MaybeUninit<[u8; 64]> = std::mem::MaybeUninit::zeroed();
+            let _ = crate::ffi::clockbound_now(ctx, res0.as_mut_ptr() as *mut crate::ffi::clockbound_now_result);
+            clock_off();
+        }
         if mode == "breachthenok" || mode == "malformedthenok" {
             // both clients are first asked at a moment at which the call must fail (monotonic clock 2 s before as-of: causality
             // breach / a record with a drift of 1e9 ppb: malformed), then at a moment / on a record for which it must answer:
@@ -264,6 +289,12 @@ pub fn cmd_abi2(a: &[&str]) -> String {
         }
         let mut f = std::fs::OpenOptions::new().write(true).open(&p2).expect("open for patch");
         match mode.as_str() {
+            "unknownthensync" => {
+                f.seek(SeekFrom::Start(16)).unwrap();
+                f.write_all(&record_bytes((100, 0), (1100, 0), 1_000_000_000, 1000, 1)).unwrap();
+                f.seek(SeekFrom::Start(14)).unwrap();
+                f.write_all(&6u16.to_ne_bytes()).unwrap();
+            }
             "malformedthenok" => {
                 f.seek(SeekFrom::Start(16)).unwrap();
                 f.write_all(&record_bytes((100, 0), (1100, 0), 5000, 1000, 1)).unwrap();
@@ -313,6 +344,95 @@ pub fn cmd_abi2(a: &[&str]) -> String {
         format!("rust={} c={}", rust, c)
     });
     clock_off();
+    let _ = std::fs::remove_file(&path);
+    match r {
+        Ok(s) => format!("ok {}", s),
+        Err(p) => format!("panic {}", crate::panic_msg(&p).replace(' ', "_")),
+    }
+}
+
+/// abi3: both client libraries have the segment (record A) open; during ONE call for the time, at the very first clock read the call
+/// makes, the daemon publishes record B (a bound a million times larger).  A call uses a record it obtained BEFORE its clock readings:
+/// the answer must be the one computed from A.  (If the call read the clock first and took its snapshot afterwards, it would pair a
+/// reading taken before B was measured with B.)
+pub fn cmd_abi3(_a: &[&str]) -> String {
+    use std::io::{Seek, SeekFrom, Write};
+    let path = tmp_path("abi3");
+    let mut bytes = header_bytes(72, 1, 2);
+    bytes.extend_from_slice(&record_bytes((100, 0), (1100, 0), 5000, 1000, 1));
+    write_file(&path, &bytes);
+    let (real, mono) = (1_700_000_000i128 * 1_000_000_000, 101i128 * 1_000_000_000);
+    let cpath = CString::new(path.clone()).unwrap();
+    let p2 = path.clone();
+    let r = std::panic::catch_unwind(move || unsafe {
+        let mut rc = match clock_bound_client::ClockBoundClient::new_with_path(&p2) {
+            Ok(c) => c,
+            Err(e) => return format!("rust=open_err:kind={} c=-", e.kind as i32 + 1),
+        };
+        let mut err = crate::ffi::clockbound_err::default();
+        let ctx = crate::ffi::clockbound_open(cpath.as_ptr(), &mut err);
+        if ctx.is_null() {
+            return format!("rust=- c=open_err:kind={}", err.kind as i32);
+        }
+        let publish = |p: String, rec: Vec<u8>, gen: u16| {
+            let mut f = std::fs::OpenOptions::new().write(true).open(&p).expect("open for patch");
+            f.seek(SeekFrom::Start(16)).unwrap();
+            f.write_all(&rec).unwrap();
+            f.seek(SeekFrom::Start(14)).unwrap();
+            f.write_all(&gen.to_ne_bytes()).unwrap();
+        };
+        let rec_b = record_bytes((100, 500_000_000), (1100, 0), 5_000_000_000, 1000, 1);
+        // ---- Rust client
+        let (p3, rb) = (p2.clone(), rec_b.clone());
+        crate::set_on_clock_read(Some(Box::new(move |i| {
+            if i == 0 {
+                publish(p3.clone(), rb.clone(), 4);
+            }
+        })));
+        set_clock(real, mono);
+        let rust = match rc.now() {
+            Ok(r) => format!("now_ok:{}.{}:{}.{}:{}", r.earliest.tv_sec(), r.earliest.tv_nsec(), r.latest.tv_sec(), r.latest.tv_nsec(), r.clock_status as i32),
+            Err(e) => format!("now_err:kind={}:errno={}", e.kind as i32 + 1, e.errno.0),
+        };
+        let reads_r = clock_off().len();
+        crate::set_on_clock_read(None);
+        // ---- C library: record A again (a new generation), then the same
+        let publish2 = |p: String, rec: Vec<u8>, gen: u16| {
+            let mut f = std::fs::OpenOptions::new().write(true).open(&p).expect("open for patch");
+            f.seek(SeekFrom::Start(16)).unwrap();
+            f.write_all(&rec).unwrap();
+            f.seek(SeekFrom::Start(14)).unwrap();
+            f.write_all(&gen.to_ne_bytes()).unwrap();
+        };
+        publish2(p2.clone(), record_bytes((100, 0), (1100, 0), 5000, 1000, 1), 6);
+        let (p4, rb2) = (p2.clone(), rec_b.clone());
+        crate::set_on_clock_read(Some(Box::new(move |i| {
+            if i == 0 {
+                publish2(p4.clone(), rb2.clone(), 8);
+            }
+        })));
+        set_clock(real, mono);
+        #[repr(C)]
+        struct CNowResult {
+            earliest: libc::timespec,
+            latest: libc::timespec,
+            clock_status: i32,
+        }
+        let mut res: std::mem::MaybeUninit<CNowResult> = std::mem::MaybeUninit::zeroed();
+        let e = crate::ffi::clockbound_now(ctx, res.as_mut_ptr() as *mut crate::ffi::clockbound_now_result);
+        let c = if e.is_null() {
+            let r = res.assume_init();
+            format!("now_ok:{}.{}:{}.{}:{}", r.earliest.tv_sec, r.earliest.tv_nsec, r.latest.tv_sec, r.latest.tv_nsec, r.clock_status as i32)
+        } else {
+            format!("now_err:kind={}:errno={}", std::ptr::read(&(*e).kind) as i32, (*e).errno)
+        };
+        let reads_c = clock_off().len();
+        crate::set_on_clock_read(None);
+        crate::ffi::clockbound_close(ctx);
+        format!("rust={} c={} clock_reads={},{}", rust, c, reads_r, reads_c)
+    });
+    clock_off();
+    crate::set_on_clock_read(None);
     let _ = std::fs::remove_file(&path);
     match r {
         Ok(s) => format!("ok {}", s),
